@@ -236,7 +236,9 @@ func init() {
 				return histBad("input-mutated", bad)
 			}
 			ref, referr := interpolation.Interpolate(mkCfg(), interpolation.Options{LookupValue: a.lookupFn()})
-			if (err == nil) != (referr == nil) || (err != nil && err.Error() != referr.Error()) || (err == nil && !reflect.DeepEqual(out, ref)) {
+			// on an error only its class is compared: which of several failing values is reported (and how much of the
+			// partial result exists) depends on Go's map iteration order, not on the history
+			if (err == nil) != (referr == nil) || (err != nil && jsonText(c07ErrClass(err)) != jsonText(c07ErrClass(referr))) || (err == nil && !reflect.DeepEqual(out, ref)) {
 				return histBad("history-dependent", fmt.Sprintf("interpolation.Interpolate of the dict %s with lookup %s gives %s (error %v) after %d earlier calls on the same dict (lookups %s), but %s (error %v) on a fresh copy",
 					jsonText(w.snaps[0]), envText(a.Lookup), jsonText(out), err, len(a.Hist), jsonText(a.Hist), jsonText(ref), referr))
 			}
